@@ -10,12 +10,14 @@ Driver for correspondence stream `cfg` (property C08).  Requests:
   vecgen  sym blocked nc0 nc1 <bs> <bidx> <nz> <blocks>
                                        -> canonical triples | err-key       (generic core + reorder)
   p2b     N nc r                       -> nat                               (packed -> blocked index)
+  precomp repaired fuel <linear_deps> <deps> <isUpd> <basisScope> -> list     (VForm.dependency_analysis: self.precomp)
 `<nz>` = the block/entry positions `S.nonzero()` (full pattern, library order) as `i j` pairs,
 `<vals>` the oracle entries `asm.entry(i,j)` for them (exact rationals), `<blocks>` lists of
 `nc1*nc0` rationals.  Exact zeros are dropped from the canonical output on both sides.
 -/
 import Pyiga.Proto
 import Pyiga.Model.Assembler
+import Pyiga.Model.Layout
 
 open Pyiga Pyiga.Proto Pyiga.Index Pyiga.ML Pyiga.Asm
 
@@ -81,6 +83,11 @@ def request : P String := do
         let ws := coreVecAllWrites bidx transp sym nc0 nc1 blk
         if blocked then pure (showTrip (blockedTriples bs bidx nc1 nc0 ws))
         else pure (showTrip (packedTriples bs bidx nc1 nc0 ws))
+  | "precomp" => do
+      let repaired ← bool; let fuel ← nat
+      let lin ← list nat; let deps ← list (list nat); let upd ← list bool; let basis ← list bool
+      pure (showNats (Pyiga.Layout.precompRule repaired (fun v => deps.getD v []) (fun v => upd.getD v false)
+        (fun v => basis.getD v false) fuel lin))
   | "p2b" => do
       let N ← nat; let nc ← nat; let r ← nat
       if nc = 0 then failure
